@@ -144,28 +144,46 @@ func replayWitnesses(repo, hdir string, r *HarnessRun, labels []string) (int, []
 	ok := 0
 	var bad []string
 	for _, l := range labels {
-		w := r.Witnesses[l]
-		if w.Model["_concretization_failed"] != "" || w.SymOnly {
-			continue // cannot be concretised / involves injected faults; not counted as validated
-		}
-		res := runReplay(bin, r.Name, w.Model, replayThorough)
-		switch {
-		case res.runErr != "":
-			bad = append(bad, fmt.Sprintf("%s: %s", l, res.runErr))
-		case res.Panic != "":
-			bad = append(bad, fmt.Sprintf("%s: native panic %s", l, res.Panic))
-		case len(res.AssumeViolated) > 0:
-			bad = append(bad, fmt.Sprintf("%s: pre-state from the model violates an assumption natively", l))
-		case !contains(res.Reached, l):
-			bad = append(bad, fmt.Sprintf("%s: label not reached natively (reached %v, failed %v)", l, res.Reached, res.Failed))
-		default:
-			ok++
-			// a native assertion failure on a path the solver proved clean is a mismatch
-			for _, f := range res.Failed {
-				if _, isViol := r.Violations[f]; !isViol {
-					bad = append(bad, fmt.Sprintf("%s: assertion %q fails natively but not symbolically", l, f))
+		// a label is validated if one of its candidate models (up to three, from different
+		// paths) replays natively; it is a mismatch only if every candidate fails
+		cands := append([]*Witness{r.Witnesses[l]}, r.AltWitnesses[l]...)
+		var firstBad string
+		good := false
+		for _, w := range cands {
+			if w.Model["_concretization_failed"] != "" || w.SymOnly {
+				continue
+			}
+			res := runReplay(bin, r.Name, w.Model, replayThorough)
+			problem := ""
+			switch {
+			case res.runErr != "":
+				problem = fmt.Sprintf("%s: %s", l, res.runErr)
+			case res.Panic != "":
+				problem = fmt.Sprintf("%s: native panic %s", l, res.Panic)
+			case len(res.AssumeViolated) > 0:
+				problem = fmt.Sprintf("%s: pre-state from the model violates an assumption natively", l)
+			case !contains(res.Reached, l):
+				problem = fmt.Sprintf("%s: label not reached natively (reached %v, failed %v)", l, res.Reached, res.Failed)
+			default:
+				// a native assertion failure on a path the solver proved clean is always a
+				// mismatch, whatever the other candidates do
+				for _, f := range res.Failed {
+					if _, isViol := r.Violations[f]; !isViol {
+						bad = append(bad, fmt.Sprintf("%s: assertion %q fails natively but not symbolically", l, f))
+					}
 				}
 			}
+			if problem == "" {
+				good = true
+				ok++
+				break
+			}
+			if firstBad == "" {
+				firstBad = problem
+			}
+		}
+		if !good && firstBad != "" {
+			bad = append(bad, firstBad)
 		}
 	}
 	return ok, bad
